@@ -34,3 +34,204 @@ vharness! {
 pub(crate) fn mk_unlocked() -> State {
     State { seq_cst: true, lock: None, last_access: None, synchronize: Synchronize::new() }
 }
+
+// ------------------------------------------------------------ C07: one-step simulation
+
+use crate::rt::execution::verif as ev;
+use crate::rt::object::verif as ov;
+use crate::rt::scheduler::verif as sched;
+use crate::rt::thread::verif as tv;
+
+const NONE: u8 = 255;
+
+fn eq(a: &Raw, b: &Raw) -> bool {
+    le(a, b) && le(b, a)
+}
+
+/// World: 3 threads, one mutex (object 0) whose owner is `owner`; `acting`
+/// runs.  Every other thread is either waiting for this mutex (pending
+/// operation on it; Blocked iff the mutex is held -- loom's coupling with the
+/// reference "waiter" set) or unrelated (Runnable or Blocked elsewhere).
+/// Returns (execution, mutex handle, waiting[], state codes[]).
+fn world(acting: usize, owner: u8) -> (crate::rt::Execution, Mutex, [bool; 3], [u8; 3]) {
+    let mut e = ev::mk_exec(3, 1, None);
+    tv::activate(&mut e.threads, acting);
+    let sync: Raw = kani::any();
+    let st = State {
+        seq_cst: kani::any(),
+        lock: if owner == NONE { None } else { Some(tv::tid(owner as usize)) },
+        last_access: None,
+        synchronize: crate::rt::synchronize::verif::mk(sync),
+    };
+    let r = e.objects.insert(st);
+    let mut waiting = [false; 3];
+    let mut codes = [0u8; 3];
+    let mut t = 0;
+    while t < 3 {
+        let c: Raw = kani::any();
+        tv::th(&mut e.threads, t).causality = vv(c);
+        if t != acting {
+            let w: bool = kani::any();
+            waiting[t] = w && owner != t as u8;
+            if waiting[t] {
+                tv::th(&mut e.threads, t).operation = Some(ov::op(0, crate::rt::object::Action::Opaque));
+                codes[t] = if owner == NONE { 0 } else { 2 };
+            } else {
+                let blocked_elsewhere: bool = kani::any();
+                codes[t] = if blocked_elsewhere { 2 } else { 0 };
+            }
+            tv::th(&mut e.threads, t).state = tv::state_from_code(codes[t]);
+        }
+        t += 1;
+    }
+    (e, Mutex { state: r }, waiting, codes)
+}
+
+fn sync_of(e: &crate::rt::Execution, m: &Mutex) -> Raw {
+    crate::rt::synchronize::verif::raw(&m.state.get(&e.objects).synchronize)
+}
+
+fn owner_of(e: &crate::rt::Execution, m: &Mutex) -> u8 {
+    match m.state.get(&e.objects).lock {
+        None => NONE,
+        Some(id) => id.as_usize() as u8,
+    }
+}
+
+fn clocks(e: &crate::rt::Execution) -> [Raw; 3] {
+    [
+        vv_raw(&tv::th_ref(&e.threads, 0).causality),
+        vv_raw(&tv::th_ref(&e.threads, 1).causality),
+        vv_raw(&tv::th_ref(&e.threads, 2).causality),
+    ]
+}
+
+/// lock() / try_lock() on a mutex that may be free or held by another thread
+/// (the acting thread stays runnable unless lock() has to block).
+fn acquire_case(acting: usize, try_only: bool) {
+    let owner: u8 = kani::any();
+    kani::assume(owner == NONE || ((owner as usize) < 3 && (try_only || owner as usize != acting)));
+    // lock(): the free case runs the whole real function; the held case is `lock_blocks_case`
+    if !try_only {
+        kani::assume(owner == NONE);
+    }
+    let (mut e, m, waiting, codes) = world(acting, owner);
+    let before = clocks(&e);
+    let sync0 = sync_of(&e, &m);
+    let got = sched::enter(&mut e, || {
+        if try_only {
+            m.try_acquire_lock(Location::disabled())
+        } else {
+            m.acquire_lock(Location::disabled());
+            true
+        }
+    });
+    // reference lock machine: succeeds exactly when the mutex is free
+    assert!(got == (owner == NONE));
+    assert!(sched::switches() == 0);
+    assert!(tv::active_index(&e.threads) == Some(acting));
+    let after = clocks(&e);
+    if got {
+        assert!(owner_of(&e, &m) == acting as u8);
+        // acquire: everything released into the mutex happens-before the new owner
+        assert!(eq(&after[acting], &max_raw(&before[acting], &sync0)));
+    } else {
+        assert!(owner_of(&e, &m) == owner);
+        assert!(eq(&after[acting], &before[acting]));
+    }
+    assert!(eq(&sync_of(&e, &m), &sync0));
+    let mut t = 0;
+    while t < 3 {
+        if t != acting {
+            let now = tv::state_code(&tv::th_ref(&e.threads, t).state);
+            if got && waiting[t] {
+                // exclusion: everybody else queued on this mutex is disabled now
+                assert!(now == 2);
+            } else {
+                assert!(now == codes[t]);
+            }
+            assert!(eq(&after[t], &before[t]));
+        }
+        t += 1;
+    }
+    kani::cover!(got && waiting[(acting + 1) % 3] && waiting[(acting + 2) % 3], "acquired with two other threads queued");
+    if try_only {
+        kani::cover!(!got && owner as usize == acting, "try_lock by the owner itself fails");
+        kani::cover!(!got && owner as usize != acting, "try_lock while another thread holds the mutex");
+    }
+    std::mem::forget(e);
+}
+
+vharness! {
+    /// @prop C07,C05 @tier quick @mode fast @cost 2 @funcs Mutex::acquire_lock,Mutex::post_acquire,Mutex::is_locked,Ref::branch_acquire,rt::branch,Execution::schedule,Synchronize::sync_load @bounds 3 threads, 1 mutex (free), the other two threads symbolic (queued on the mutex / unrelated runnable / blocked elsewhere), all clock values, thread 1 acting
+    /// lock() on a free mutex returns without a context switch, makes the caller the owner, joins the mutex's release view into the caller, and disables exactly the other threads queued on this mutex.
+    #[cfg_attr(kani, kani::unwind(8))]
+    fn mutex_lock_free_t1() { acquire_case(1, false) }
+}
+
+vharness! {
+    /// @prop C07 @tier quick @mode fast @cost 2 @funcs Mutex::try_acquire_lock,Mutex::post_acquire,Ref::branch_opaque @bounds 3 threads, 1 mutex free or held by any thread (including the caller), thread 0 acting
+    /// try_lock() succeeds exactly when the mutex is free; on failure nothing changes (owner, blocked set, clocks).
+    #[cfg_attr(kani, kani::unwind(8))]
+    fn mutex_try_lock_t0() { acquire_case(0, true) }
+}
+
+vharness! {
+    /// @prop C07,C05 @tier quick @mode fast @cost 2 @funcs Ref::branch_acquire,Mutex::is_locked,rt::branch,Execution::schedule @bounds 3 threads, mutex held by thread 0, thread 2 calls lock(); third thread symbolic
+    /// lock() on a held mutex blocks: the caller becomes Blocked with a pending operation on the mutex and loom asks for a context switch to a thread that can run (first half of the real acquire_lock, run through the real branch_acquire/schedule).
+    #[cfg_attr(kani, kani::unwind(8))]
+    fn mutex_lock_blocks_t2() {
+        let acting = 2;
+        let (mut e, m, _waiting, codes) = world(acting, 0);
+        // the owner can run, so this is no deadlock
+        tv::th(&mut e.threads, 0).state = tv::state_from_code(0);
+        let locked = sched::enter(&mut e, || {
+            let l = m.is_locked();
+            m.state.branch_acquire(l, Location::disabled());
+            l
+        });
+        assert!(locked);
+        assert!(tv::state_code(&tv::th_ref(&e.threads, acting).state) == 2);
+        let op = tv::th_ref(&e.threads, acting).operation;
+        assert!(op.is_some() && ov::op_index(&op.unwrap()) == 0);
+        assert!(sched::switches() == 1);
+        let next = tv::active_index(&e.threads);
+        assert!(next == Some(0) || (next == Some(1) && codes[1] == 0));
+        assert!(owner_of(&e, &m) == 0);
+        kani::cover!(next == Some(0), "owner runs next");
+        std::mem::forget(e);
+    }
+}
+
+vharness! {
+    /// @prop C07,C05,C01 @tier quick @mode fast @cost 2 @funcs Mutex::release_lock,Synchronize::sync_store,Thread::set_runnable @bounds 3 threads, mutex held by the acting thread 0, the other two threads symbolic (queued on the mutex and therefore Blocked / unrelated), all clock values
+    /// unlock releases the mutex, publishes the owner's view into it (release), makes EVERY thread queued on this mutex runnable again and touches nobody else.
+    #[cfg_attr(kani, kani::unwind(8))]
+    fn mutex_unlock_t0() {
+        let acting = 0;
+        let (mut e, m, waiting, codes) = world(acting, acting as u8);
+        let before = clocks(&e);
+        let sync0 = sync_of(&e, &m);
+        sched::enter(&mut e, || m.release_lock());
+        assert!(owner_of(&e, &m) == NONE);
+        assert!(eq(&sync_of(&e, &m), &max_raw(&sync0, &before[acting])));
+        let after = clocks(&e);
+        let mut t = 0;
+        while t < 3 {
+            assert!(eq(&after[t], &before[t]));
+            if t != acting {
+                let now = tv::state_code(&tv::th_ref(&e.threads, t).state);
+                if waiting[t] {
+                    assert!(now == 0);
+                } else {
+                    assert!(now == codes[t]);
+                }
+            }
+            t += 1;
+        }
+        assert!(sched::switches() == 0);
+        kani::cover!(waiting[1] && waiting[2], "two waiters woken");
+        kani::cover!(!waiting[1] && codes[1] == 2, "a thread blocked elsewhere stays blocked");
+        std::mem::forget(e);
+    }
+}
